@@ -5,6 +5,10 @@ import os
 
 V = os.path.dirname(os.path.dirname(os.path.abspath(__file__)))
 m = json.load(open(os.path.join(V, "seeded", "matrix.json")))
+try:
+    cross = json.load(open(os.path.join(V, "seeded", "matrix_cross.json")))
+except OSError:
+    cross = {}
 n = 0
 for mut, res in sorted(m.items()):
     if mut == "clean":
@@ -18,7 +22,8 @@ for mut, res in sorted(m.items()):
         c: {"exit": v[0], "caught": v[0] == 1, "with_failing_input": v[0] == 1 and v[1] != "nfif", "first_finding": v[2], "wall_s": v[3]}
         for c, v in res.items() if isinstance(v, list) and (v[0] != 0 or c == tgt)
     }
-    meta["caught_by"] = sorted(c for c, v in res.items() if isinstance(v, list) and v[0] == 1)
+    meta["caught_by"] = sorted(set(c for c, v in res.items() if isinstance(v, list) and v[0] == 1)
+                               | set(c for c, v in cross.get(mut, {}).items() if isinstance(v, list) and v[0] == 1))
     json.dump(meta, open(p, "w"), indent=1)
     n += 1
 print(n, "meta files updated")
